@@ -135,6 +135,8 @@ def cfg_case(draw):
     if draw(st.integers(0, 3)) == 0:
         cs['optional'] = draw(st.sampled_from([['op0'], ['oc0'], ['op0', 'oc0']]))
     if draw(st.integers(0, 3)) == 0:
+        cs['enablePoll'] = False
+    if draw(st.integers(0, 3)) == 0:
         cfg['group'] = 'grp'
     if draw(st.integers(0, 3)) == 0:
         cfg['visibility'] = draw(st.sampled_from(['expert', 'advanced', 2]))
@@ -378,7 +380,13 @@ def check_cfg(ctx, case):
             ctx.label(f'start-value-as-default:{i["vclass"]}')
     ctx.sample({'class': cs, 'cfg': cfg, 'injected': errors}, every=199)
     cls = classgen.build_class(cs, 'G0')
-    kit = Kit({'m0': dict(real_cfg(cfg), cls=cls)})
+    the_cfg = {'m0': dict(real_cfg(cfg), cls=cls)}
+    frozen = json.dumps({k: v for k, v in the_cfg['m0'].items() if k != 'cls'}, sort_keys=True, default=repr)
+    kit = Kit(the_cfg)
+    if json.dumps({k: v for k, v in the_cfg['m0'].items() if k != 'cls'}, sort_keys=True, default=repr) != frozen:
+        # the loaded configuration is used again (restart, one Param object for two modules): creating a module must not change it
+        ctx.finding('configuration-object-modified', case, f'{frozen[:150]} -> {json.dumps({k: v for k, v in the_cfg["m0"].items() if k != "cls"}, sort_keys=True, default=repr)[:150]}')
+        return
     failed = bool(kit.errors)
     text = '\n'.join(kit.errors)
     if failed:
